@@ -1,4 +1,5 @@
 import ArgoVerif.Props.SchedCommon
+import ArgoVerif.Model.MigRules
 /-
 Props.C13 — migration moves a unit to the requested pool exactly once (unit-level part; the selection of a target
 stream by ABT_thread_migrate and the rejection rules are tied by T1 skeletons and checked by the scenario monitors).
@@ -47,5 +48,62 @@ example :
 example : (machine.run init
       [.create 1 0, .push 0 1, .pop 7 0 1, .setSt 1 .running, .run 7 1, .reqSet 1 .migrate, .cb 7 1 .yield,
        .migrate 1 5, .reqClr 1 .migrate, .setSt 1 .ready, .push 0 1]).isNone = true := by decide
+
+
+/-! ## the request rules (decision logic of ABT_thread_migrate_to_pool / _to_sched / _to_xstream) -/
+namespace Rules
+open ArgoVerif.Model.MigRules
+
+/-- **a request naming the unit's current pool is rejected** -/
+theorem own_pool_rejected (u : WUnit) : request u (.pool u.pool) ≠ .ok := by
+  obtain ⟨p, m, ms⟩ := u
+  cases m <;> cases ms <;> simp [request]
+
+/-- ... and so is a request naming a scheduler (or a stream whose main scheduler) that serves the unit's pool —
+whichever position the pool has in the scheduler's list, not only the pool the request would pick -/
+theorem scheduler_serving_own_pool_rejected (u : WUnit) (ps : List Nat) (h : u.pool ∈ ps) :
+    request u (.sched ps) ≠ .ok := by
+  obtain ⟨p, m, ms⟩ := u
+  cases m <;> cases ms <;> simp_all [request]
+
+/-- **a non-migratable unit and a main-scheduler ULT are rejected**, whatever the target -/
+theorem non_migratable_rejected (u : WUnit) (t : Target) (h : u.migratable = false) : request u t = .invThread := by
+  simp [request, h]
+theorem main_scheduler_rejected (u : WUnit) (t : Target) (h : u.mainSched = true) : request u t = .invThread := by
+  obtain ⟨p, m, ms⟩ := u
+  cases m <;> simp_all [request]
+
+/-- **exactly the other requests are accepted** -/
+theorem accepted_pool_iff (u : WUnit) (p : Nat) :
+    request u (.pool p) = .ok ↔ (u.migratable = true ∧ u.mainSched = false ∧ p ≠ u.pool) := by
+  obtain ⟨q, m, ms⟩ := u
+  cases m <;> cases ms <;> simp [request]
+theorem accepted_sched_iff (u : WUnit) (ps : List Nat) :
+    request u (.sched ps) = .ok ↔ (u.migratable = true ∧ u.mainSched = false ∧ u.pool ∉ ps ∧ ps ≠ []) := by
+  obtain ⟨q, m, ms⟩ := u
+  cases m <;> cases ms <;> simp [request]
+  by_cases hq : q ∈ ps
+  · simp [hq]
+  · cases ps <;> simp_all
+
+/-- ... and an accepted request names a pool that differs from the unit's -/
+theorem accepted_names_another_pool (u : WUnit) (t : Target) (h : request u t = .ok) :
+    ∃ p, chosen t = some p ∧ p ≠ u.pool := by
+  cases t with
+  | pool p => exact ⟨p, rfl, ((accepted_pool_iff u p).1 h).2.2⟩
+  | sched ps =>
+    have ha := (accepted_sched_iff u ps).1 h
+    cases ps with
+    | nil => exact absurd rfl ha.2.2.2
+    | cons q rest =>
+      refine ⟨q, rfl, ?_⟩
+      intro hq
+      exact ha.2.2.1 (by simp [hq])
+
+example : request { pool := 7, migratable := true, mainSched := false } (.sched [3, 7]) = .migrationTarget ∧
+    request { pool := 7, migratable := true, mainSched := false } (.sched [3, 4]) = .ok ∧
+    request { pool := 7, migratable := false, mainSched := false } (.pool 3) = .invThread := by decide
+
+end Rules
 
 end ArgoVerif.Props.C13
